@@ -414,6 +414,12 @@ Section Auth2.
       destruct g; cbn [fst]; exact G.
   Qed.
 
+  Lemma a_mutate s l : stepa s (fst (mutate sc s l)).
+  Proof.
+    apply (mutate_step sc stepa (stepa_refl sc pl locals prev0) (stepa_trans sc pl locals prev0)
+             (stepa_get_obj sc pl locals prev0) (stepa_set_cache sc pl locals prev0)).
+  Qed.
+
   Definition local_ok (p : pobj) : Prop :=
     In (p_id p) (apply_ids pl) /\ forall l, p_local p = Some l -> l_id l = p_id p.
 
@@ -426,9 +432,11 @@ Section Auth2.
     pose proof (a_policy_apply_filter s (p_id p)) as P.
     destruct (policy_apply_filter sc s (p_id p)) as [s1 f1]. cbn [fst] in P.
     destruct (match f1 with FPass => _ | _ => _ end).
-    - assert (K : stepa s1 (fst (kubectl_apply sc s1 l))) by (apply a_kubectl_apply; rewrite (Hl l eq_refl); exact Hin).
-      destruct (kubectl_apply sc s1 l) as [s2 r]. cbn [fst] in K.
-      destruct r; (tr; [exact P|]; tr; [exact K|apply RA]).
+    - pose proof (a_mutate s1 l) as M. destruct (mutate sc s1 l) as [sm okm]. cbn [fst] in M.
+      destruct okm; cbn [negb]; [|tr; [exact P|]; tr; [exact M|apply RA]].
+      assert (K : stepa sm (fst (kubectl_apply sc sm l))) by (apply a_kubectl_apply; rewrite (Hl l eq_refl); exact Hin).
+      destruct (kubectl_apply sc sm l) as [s2 r]. cbn [fst] in K.
+      destruct r; (tr; [exact P|]; tr; [exact M|]; tr; [exact K|apply RA]).
     - tr; [exact P|apply RA].
     - tr; [exact P|apply RA].
   Qed.
